@@ -61,6 +61,7 @@ use std::sync::Arc;
 
 mod cases;
 pub mod dynfits;
+pub mod pager;
 mod types;
 
 pub use cases::generate;
